@@ -15,19 +15,28 @@ def PieceOk (L : Nat) (files : List Nat) (hashes : List Bytes) (i : Nat) (p : Pi
   ∧ (∀ s ∈ p.segs, some s.flen = files[s.file]? ∧ s.off + s.len ≤ s.flen ∧ (s.len = 0 → s.flen = 0))
   ∧ (p.segs.map (·.file)).Pairwise (· < ·)
 
+private theorem PieceOk_of_good (L : Nat) (files : List Nat) (hashes : List Bytes) (i : Nat) (p : Piece)
+    (hi : i < hashes.length) (hg : PieceGood L files hashes[i] (0 + i) p) : PieceOk L files hashes i p := by
+  rw [Nat.zero_add] at hg
+  exact ⟨hg.flat, by rw [hg.hash]; simp [hi], hg.pos, hg.len, hg.segok, hg.incr⟩
+
 /-- multi-file form: the cursor loop never panics and yields exactly the partition -/
 theorem C06_partition_multi (L : Nat) (files : List Nat) (hashes : List Bytes)
     (hL : 0 < L) (hne : files ≠ []) (hcount : hashes.length = (files.sum + L - 1) / L) :
     ∃ ps, constructMulti L files hashes = some ps ∧ ps.length = hashes.length ∧
       ∀ i (hi : i < ps.length), PieceOk L files hashes i ps[i] := by
-  sorry
+  obtain ⟨ps, hps, hlen, hgood, _⟩ := multi_top L files hashes hL hne hcount
+  exact ⟨ps, hps, hlen, fun i hi =>
+    PieceOk_of_good L files hashes i ps[i] (by omega) (hgood i hi (by omega))⟩
 
 /-- single-file form -/
 theorem C06_partition_single (L total : Nat) (hashes : List Bytes)
     (hL : 0 < L) (hcount : hashes.length = (total + L - 1) / L) :
     let ps := constructSingle L total hashes
     ps.length = hashes.length ∧ ∀ i (hi : i < ps.length), PieceOk L [total] hashes i ps[i] := by
-  sorry
+  obtain ⟨hlen, hgood, _⟩ := single_top L total hashes hL hcount
+  exact ⟨hlen, fun i hi =>
+    PieceOk_of_good L [total] hashes i _ (by omega) (hgood i hi (by omega))⟩
 
 /-- every byte of every file belongs to exactly one segment of exactly one piece, in order:
     the concatenation of all segments' address ranges is 0, 1, …, total-1 with no gap and no repeat -/
@@ -35,12 +44,15 @@ theorem C06_every_byte_multi (L : Nat) (files : List Nat) (hashes : List Bytes) 
     (hL : 0 < L) (hne : files ≠ []) (hcount : hashes.length = (files.sum + L - 1) / L)
     (h : constructMulti L files hashes = some ps) :
     ps.flatMap (fun p => p.segs.flatMap (addr files)) = List.range' 0 files.sum := by
-  sorry
+  obtain ⟨ps', hps, _, _, hflat⟩ := multi_top L files hashes hL hne hcount
+  rw [h] at hps
+  cases hps
+  exact hflat
 
 theorem C06_every_byte_single (L total : Nat) (hashes : List Bytes)
     (hL : 0 < L) (hcount : hashes.length = (total + L - 1) / L) :
     (constructSingle L total hashes).flatMap (fun p => p.segs.flatMap (addr [total])) = List.range' 0 total := by
-  sorry
+  exact (single_top L total hashes hL hcount).2.2
 
 /-- closed form: the layout the code computes passes the interval-arithmetic checker used on the
     implementation's output (TB.Spec.LayoutSpec.checkLayout), i.e. its positive-length segments are exactly the
@@ -49,17 +61,26 @@ theorem C06_closed_form_multi (L : Nat) (files : List Nat) (hashes : List Bytes)
     (hL : 0 < L) (hne : files ≠ []) (hcount : hashes.length = (files.sum + L - 1) / L)
     (h : constructMulti L files hashes = some ps) :
     checkLayout L files hashes ps = true := by
-  sorry
+  obtain ⟨ps', hps, hlen, hgood, _⟩ := multi_top L files hashes hL hne hcount
+  rw [h] at hps
+  cases hps
+  exact checkLayout_of_good L files hashes ps hlen hgood
 
 theorem C06_closed_form_single (L total : Nat) (hashes : List Bytes)
     (hL : 0 < L) (hcount : hashes.length = (total + L - 1) / L) :
     checkLayout L [total] hashes (constructSingle L total hashes) = true := by
-  sorry
+  obtain ⟨hlen, hgood, _⟩ := single_top L total hashes hL hcount
+  exact checkLayout_of_good L [total] hashes _ hlen hgood
 
 /-- piece length 0 is loadable only with total 0 and no hash: no pieces, nothing panics -/
 theorem C06_zero_piece_length (length : Option Nat) (files : List Nat) (hne : files ≠ []) :
     constructPieces 0 length (some files) [] = some [] := by
-  sorry
+  cases length with
+  | some total => rfl
+  | none =>
+    cases files with
+    | nil => exact absurd rfl hne
+    | cons f0 rest => rfl
 
 /-- for every loadable torrent the layout exists (no panic) and passes the checker -/
 theorem C06_loaded (H : Bytes → Bytes) (inp : Bytes) (T : Torrent) (h : load H inp = .ok T) :
@@ -69,7 +90,34 @@ theorem C06_loaded (H : Bytes → Bytes) (inp : Bytes) (T : Torrent) (h : load H
           checkLayout T.info.pieceLength
             (match T.info.length with | some l => [l] | none => (T.info.files.getD []).map (·.length))
             T.info.pieces ps = true) := by
-  sorry
+  obtain ⟨ks, vs, hev⟩ := load_ok H inp T h
+  rcases evaluateInfo_ok ks vs T.info hev with ⟨l, hl, hf, hpc⟩ | ⟨fs, hl, hf, hne, hpc⟩
+  · rw [hl, hf]
+    simp only [constructPieces]
+    unfold pieceCountOk at hpc
+    by_cases h0 : T.info.pieceLength = 0
+    · simp only [h0, if_true, Bool.and_eq_true, decide_eq_true_eq] at hpc
+      have hnil : T.info.pieces = [] := List.eq_nil_of_length_eq_zero hpc.2
+      refine ⟨_, rfl, by rw [hnil]; rfl, fun hpos => by omega⟩
+    · simp only [h0, if_false, decide_eq_true_eq] at hpc
+      have hL : 0 < T.info.pieceLength := Nat.pos_of_ne_zero h0
+      obtain ⟨hlen, hgood, _⟩ := single_top T.info.pieceLength l T.info.pieces hL hpc
+      exact ⟨_, rfl, hlen, fun _ => checkLayout_of_good _ [l] _ _ hlen hgood⟩
+  · rw [hl, hf]
+    simp only [Option.map_some, constructPieces, Option.getD_some]
+    have hne' : fs.map (·.length) ≠ [] := by simpa using hne
+    unfold pieceCountOk at hpc
+    by_cases h0 : T.info.pieceLength = 0
+    · simp only [h0, if_true, Bool.and_eq_true, decide_eq_true_eq] at hpc
+      have hnil : T.info.pieces = [] := List.eq_nil_of_length_eq_zero hpc.2
+      rw [hnil, h0]
+      refine ⟨[], ?_, rfl, fun hpos => by omega⟩
+      have := C06_zero_piece_length none _ hne'
+      simpa [constructPieces] using this
+    · simp only [h0, if_false, decide_eq_true_eq] at hpc
+      have hL : 0 < T.info.pieceLength := Nat.pos_of_ne_zero h0
+      obtain ⟨ps, hps, hlen, hgood, _⟩ := multi_top T.info.pieceLength _ T.info.pieces hL hne' hpc
+      exact ⟨ps, hps, hlen, fun _ => checkLayout_of_good _ _ _ _ hlen hgood⟩
 
 -- non-vacuity: a concrete non-trivial layout meeting the hypotheses (3 files, one empty, L = 4, 3 pieces)
 example : (([3, 0, 6] : List Nat) ≠ []) ∧ ([[1], [2], [3]] : List Bytes).length = (([3, 0, 6] : List Nat).sum + 4 - 1) / 4 := by
